@@ -75,6 +75,7 @@ type ReplicaSession struct {
 	Active          bool                                        // Whether the session is actively receiving WAL entries
 	LastActivity    time.Time                                   // Time of last activity
 	ListenerAddress string                                      // Network address (host:port) the replica is listening on
+	lastSentSeq     uint64                                      // Highest sequence sent on the stream (send cursor)
 	mu              sync.Mutex                                  // Protects session state
 }
 
@@ -236,6 +237,7 @@ func (p *Primary) StreamWAL(
 		StartSequence:   req.StartSequence,
 		Stream:          stream,
 		LastAckSequence: req.StartSequence,
+		lastSentSeq:     req.StartSequence,
 		SupportedCodecs: []proto.CompressionCodec{proto.CompressionCodec_NONE},
 		Connected:       true,
 		Active:          true,
@@ -295,9 +297,12 @@ func (p *Primary) StreamWAL(
 		case <-ticker.C:
 			// Check if we have new entries to send
 			currentSeq := p.currentWAL().GetNextSequence() - 1
-			if currentSeq > session.LastAckSequence {
-				log.Info("Checking for new entries: currentSeq=%d > lastAck=%d",
-					currentSeq, session.LastAckSequence)
+			session.mu.Lock()
+			sent := session.lastSentSeq
+			session.mu.Unlock()
+			if currentSeq > sent {
+				log.Info("Checking for new entries: currentSeq=%d > lastSent=%d",
+					currentSeq, sent)
 				if err := p.sendUpdatedEntries(session); err != nil {
 					log.Error("Failed to send updated entries: %v", err)
 					// Don't terminate the stream on error, just continue
@@ -307,22 +312,31 @@ func (p *Primary) StreamWAL(
 	}
 }
 
-// sendUpdatedEntries sends any new WAL entries to the replica since its last acknowledged sequence
+// sendUpdatedEntries sends the WAL entries behind the session's send cursor to the replica
 func (p *Primary) sendUpdatedEntries(session *ReplicaSession) error {
-	// Take the mutex to safely read and update session state
-	session.mu.Lock()
-	defer session.mu.Unlock()
-
 	// Get the next sequence number we should send
-	nextSequence := session.LastAckSequence + 1
+	session.mu.Lock()
+	nextSequence := session.lastSentSeq + 1
+	session.mu.Unlock()
 
 	log.Info("Sending updated entries to replica %s starting from sequence %d",
 		session.ID, nextSequence)
 
-	// Get the next entries from WAL
+	// Get the next entries from WAL. The session lock is not held here: reading takes the
+	// WAL lock, and a writer notifying this session holds the WAL lock and waits for the
+	// session lock.
 	entries, err := p.getWALEntriesFromSequence(nextSequence)
 	if err != nil {
 		return fmt.Errorf("failed to get WAL entries: %w", err)
+	}
+
+	// Take the mutex to safely read and update session state
+	session.mu.Lock()
+	defer session.mu.Unlock()
+
+	if session.lastSentSeq+1 != nextSequence {
+		// Another sender moved the cursor in the meantime, the next round continues behind it
+		return nil
 	}
 
 	if len(entries) == 0 {
@@ -359,6 +373,7 @@ func (p *Primary) sendUpdatedEntries(session *ReplicaSession) error {
 	}
 
 	log.Info("Successfully sent %d entries to replica %s", len(protoEntries), session.ID)
+	session.lastSentSeq = entries[len(entries)-1].SequenceNumber
 	session.LastActivity = time.Now()
 	return nil
 }
@@ -534,11 +549,23 @@ func (p *Primary) sendToReplica(session *ReplicaSession, response *proto.WALStre
 	session.mu.Lock()
 	defer session.mu.Unlock()
 
+	// Every entry travels on the stream once and in order: a pushed batch is sent only
+	// if it continues what was sent before. Anything else has either been sent by the
+	// catch-up already or is ahead of it, and the catch-up will get there.
+	lastSeq := session.lastSentSeq
+	if n := len(clonedResponse.Entries); n > 0 {
+		if clonedResponse.Entries[0].SequenceNumber != session.lastSentSeq+1 {
+			return
+		}
+		lastSeq = clonedResponse.Entries[n-1].SequenceNumber
+	}
+
 	// Send response through the gRPC stream
 	if err := session.Stream.Send(clonedResponse); err != nil {
 		log.Error("Error sending to replica %s: %v", session.ID, err)
 		session.Connected = false
 	} else {
+		session.lastSentSeq = lastSeq
 		session.LastActivity = time.Now()
 	}
 }
@@ -588,6 +615,7 @@ func (p *Primary) sendInitialEntries(session *ReplicaSession) error {
 		return fmt.Errorf("failed to send initial entries: %w", err)
 	}
 
+	session.lastSentSeq = entries[len(entries)-1].SequenceNumber
 	session.LastActivity = time.Now()
 	return nil
 }
@@ -630,6 +658,8 @@ func (p *Primary) resendEntries(session *ReplicaSession, fromSequence uint64) er
 		return fmt.Errorf("failed to resend entries: %w", err)
 	}
 
+	// The stream continues behind what was resent
+	session.lastSentSeq = entries[len(entries)-1].SequenceNumber
 	session.LastActivity = time.Now()
 	return nil
 }
